@@ -510,29 +510,59 @@ class Eval:
 def feasible_envs(ev, syms, conds, tokens, pre=None, limit=200000):
     """all assignments of cells to `syms` under which no condition is definitely violated.
     conds: list of (value, outcome).  pre: dict sym -> predicate(W) restricting cells.
-    yields (env, undecided) where undecided lists the conditions that evaluated to None."""
+    yields (env, undecided) where undecided lists the conditions that evaluated to None.
+    Backtracking: a condition is evaluated as soon as all of its symbols are assigned."""
     cells = ev.cells(tokens)
+    syms = list(syms)
     doms = []
     for s in syms:
         d = cells
-        if pre and s in pre:
+        if pre and s in pre and pre[s] is not None:
             d = [c for c in cells if pre[s](c)]
         doms.append(d)
-    n = 1
-    for d in doms:
-        n *= max(1, len(d))
-    if n > limit:
-        raise OverflowError('too many cells: %d' % n)
-    for combo in itertools.product(*doms):
-        env = dict(zip(syms, combo))
-        und = []
-        okay = True
-        for (c, outcome) in conds:
-            r = ev.tri(c, env)
-            if r is None:
-                und.append(c)
-            elif r != outcome:
-                okay = False
-                break
-        if okay:
-            yield env, und
+    symset = set(syms)
+    # conditions grouped by the position of their last symbol in the assignment order
+    pos = {s: i for i, s in enumerate(syms)}
+    by_level = [[] for _ in syms]
+    free = []
+    for (c, outcome) in conds:
+        ss = symbols(c) & symset
+        if ss:
+            by_level[max(pos[x] for x in ss)].append((c, outcome))
+        else:
+            free.append((c, outcome))
+    und0 = []
+    for (c, outcome) in free:
+        r = ev.tri(c, {})
+        if r is None:
+            und0.append(c)
+        elif r != outcome:
+            return
+    count = [0]
+
+    def rec(i, env, und):
+        if i == len(syms):
+            yield dict(env), list(und)
+            return
+        s = syms[i]
+        for cell in doms[i]:
+            count[0] += 1
+            if count[0] > limit * 4:
+                raise OverflowError('too many cells')
+            env[s] = cell
+            okay = True
+            added = 0
+            for (c, outcome) in by_level[i]:
+                r = ev.tri(c, env)
+                if r is None:
+                    und.append(c)
+                    added += 1
+                elif r != outcome:
+                    okay = False
+                    break
+            if okay:
+                yield from rec(i + 1, env, und)
+            for _ in range(added):
+                und.pop()
+        env.pop(s, None)
+    yield from rec(0, {}, und0)
